@@ -785,12 +785,13 @@ where
             }
         };
 
-        let probability = unsafe {
-            // SAFETY: see above "SAFETY" comments on all paths that lead here.
-            right_sided_cumulative
-                .wrapping_sub(&left_sided_cumulative)
-                .into_nonzero_unchecked()
-        };
+        // The search above ensures `left_sided_cumulative <= quantile < right_sided_cumulative` only
+        // if the underlying distribution is valid (monotonic cdf with values in `0..=1`), so we
+        // have to check this here.
+        let probability = right_sided_cumulative
+            .wrapping_sub(&left_sided_cumulative)
+            .into_nonzero()
+            .expect("Invalid underlying continuous probability distribution.");
         (symbol, left_sided_cumulative, probability)
     }
 }
